@@ -31,134 +31,179 @@ CfgOK(ev) == ev.cfg = ev.req /\ ev.cfg \in ClipCfgs
 
 \* ---------------------------------------------------------------- entry-wise comparison of a logged 4x4
 SignBit(f, w) == Fields(f, w).s
+AbsWord(w) == [i \in 1..Len(w) |-> IF i = Len(w) /\ w[i] >= 32768 THEN w[i] - 32768 ELSE w[i]] \o << >>      \* sign bit cleared
 \* structural constant: the same value and, for zero, the positive zero the constructor wrote
 ExactW(f, w, e) == FinW(w) /\ QEq(QW(w), e) /\ (QIsZero(e) => SignBit(f, w) = 0)
-\* computed entry: | observed - expected | <= kq * eps * | expected |
-NearW(f, w, e, kq) == FinW(w) /\ QNear(QW(w), e, QMul(QMul(kq, QFromD(Eps(f))), QAbs(e)))
-MatOK(f, fam, ws, M, kq) ==
-    /\ Len(ws) = 16
-    /\ \A i \in 1..16 : IF i \in Computed(fam)
-                        THEN NearW(f, ws[i], M.e[i], IF fam = "infinitePerspective" /\ i = 15 THEN QZero ELSE kq)
-                        ELSE ExactW(f, ws[i], M.e[i])
+\* computed entry: | observed - p/q | <= (kn/kd) * eps * | p/q |, evaluated without division as
+\*   | observed * q - p | * kd <= kn * 2^-mb * |p|      (observed is a dyadic: one multiplication)
+NearMag(f, aw, e, kn, kd) ==
+    LET obs == ValW(f, aw) IN
+    DLe(DMulInt(DAbs(DSub(DMul(obs, DMk(FALSE, e.q, 0)), DMk(FALSE, e.p.m, 0))), kd),
+        DMul2k(DMulInt(DMk(FALSE, e.p.m, 0), kn), -f.mb))
+SameSign(f, w, e) == QIsZero(e) \/ QIsZero(QW(w)) \/ (SignBit(f, w) = 1) = (QSign(e) < 0)
+\* all the checks of the matrices ms (sequence of word lists) against the expected matrices Ms, entry by entry;
+\* the magnitude comparisons (the expensive part) are made once per distinct (|observed|, |expected|) pair
+MatsOK(f, fam, ms, Ms, kn, kd) ==
+    LET n == Len(ms)
+        comp == Computed(fam)
+        exactIdx == IF fam = "infinitePerspective" THEN {15} ELSE {}        \* -near / -2 near: computed, but exactly
+    IN /\ \A j \in 1..n : Len(ms[j]) = 16 /\ AllFin(ms[j])
+       /\ \A j \in 1..n : \A i \in 1..16 :
+              IF i \in comp \ exactIdx THEN SameSign(f, ms[j][i], Ms[j].e[i]) ELSE ExactW(f, ms[j][i], Ms[j].e[i])
+       /\ \A c \in { << AbsWord(ms[j][i]), QN2(QAbs(Ms[j].e[i])) >> : j \in 1..n, i \in comp \ exactIdx } : NearMag(f, c[1], c[2], kn, kd)
 
 \* tolerance factors (units of eps = 2^-mb, i.e. two rounding units), relative to the entry:
 \*  ortho / frustum: every computed entry is a quotient of two once-rounded sums / products of the arguments:
-\*    at most 3 roundings = 1.5 eps (+ second order)                                                  -> 4
+\*    at most 3 roundings = 1.5 eps (+ second order); observed maximum 1.0 .. 1.5       -> 2
 \*  tan-based builders: the harness passes fovy = RN(2 atan T) (relative error eps/2), the builder halves it
 \*    (exact) and takes tan (libm: < 1 ulp = eps): d tan(x)/tan(x) = (2x / sin 2x) dx/x, and with
 \*    sin 2x = 2T/(1+T^2), 2x < pi this is < (pi/4) (1+T^2)/T * eps; then at most 4 more roundings
 \*    (aspect * tan, 1/., range * near, ...), perspectiveFov: cos, sin (1 ulp each), one division and
 \*    h * height / width                                                                              -> 6 + (1+T^2)/T
-KBox == QI(4)
-KTan(T) == QAdd(QI(6), QDiv(QAdd(QOne, QMul(T, T)), T))
+KBoxN == 2
+KBoxD == 1
+KTanN(tn, td) == 6 * tn * td + tn * tn + td * td          \* 6 + (1 + T^2) / T  with  T = tn / td,  as a fraction
+KTanD(tn, td) == tn * td
 
 \* ---------------------------------------------------------------- builder events
-VariantSet == { <<FALSE, FALSE>>, <<FALSE, TRUE>>, <<TRUE, FALSE>>, <<TRUE, TRUE>> }
+VariantSeq == << <<FALSE, FALSE>>, <<FALSE, TRUE>>, <<TRUE, FALSE>>, <<TRUE, TRUE>> >>
 KindsPresent(ev) == { kd \in {"U", "ZO", "NO", "LH", "RH"} : Has(ev, kd) }
 DispatchOK(ev, kinds) == \A kd \in kinds : Has(ev, kd) /\ ev[kd] = ev[Dispatch(kd, ev.cfg)]
-FourOK(ev, fam, Expected(_, _), kq) ==
-    \A v \in VariantSet : MatOK(Fmt(ev), fam, ev[VariantName(v[1], v[2])], Expected(v[1], v[2]), kq)
+FourOK(ev, fam, Expected(_, _), kn, kd) ==
+    MatsOK(Fmt(ev), fam, [j \in 1..4 |-> ev[VariantName(VariantSeq[j][1], VariantSeq[j][2])]] \o << >>,
+           [j \in 1..4 |-> Expected(VariantSeq[j][1], VariantSeq[j][2])] \o << >>, kn, kd)
+OneOK(ev, fam, ws, M, kn, kd) == MatsOK(Fmt(ev), fam, << ws >>, << M >>, kn, kd)
+AllKinds == {"U", "ZO", "NO", "LH", "RH"}
 
 BoxVerdict(ev) ==
     LET ws == Words1(ev) IN
     IF ~AllFin(ws) THEN VSkip ELSE
     LET q == Tup(QSeq(ws)) IN
     IF ~(AllInRange(q) /\ QLt(q[1], q[2]) /\ QLt(q[3], q[4])) THEN VSkip
-    ELSE IF ev.op = "ortho2" THEN VBool(CfgOK(ev) /\ MatOK(Fmt(ev), "ortho2", ev.r, Ortho2D(q[1], q[2], q[3], q[4]), KBox))
+    ELSE IF ev.op = "ortho2" THEN VBool(CfgOK(ev) /\ OneOK(ev, "ortho2", ev.r, Ortho2D(q[1], q[2], q[3], q[4]), KBoxN, KBoxD))
     ELSE IF ~(Pos(q[5]) /\ QLt(q[5], q[6])) THEN VSkip
     ELSE LET E(lh, zo) == IF ev.op = "ortho" THEN Ortho(q[1], q[2], q[3], q[4], q[5], q[6], lh, zo)
                           ELSE Frustum(q[1], q[2], q[3], q[4], q[5], q[6], lh, zo)
-         IN VBool(CfgOK(ev) /\ FourOK(ev, ev.op, E, KBox) /\ DispatchOK(ev, {"U", "ZO", "NO", "LH", "RH"}))
+         IN VBool(CfgOK(ev) /\ DispatchOK(ev, AllKinds) /\ FourOK(ev, ev.op, E, KBoxN, KBoxD))
 
 \* a[1] is the angle the harness computed from T = tn/td (an input encoding; the oracle uses T itself)
 FovVerdict(ev) ==
     LET ws == Words1(ev) IN
-    IF ~AllFin(ws) \/ ev.tn < 1 \/ ev.td < 1 THEN VSkip ELSE
-    LET q == Tup(QSeq(ws)) T == QF(ev.tn, ev.td) kq == KTan(T) IN
+    IF ~AllFin(ws) \/ ev.tn < 1 \/ ev.td < 1 \/ ev.tn > 1000 \/ ev.td > 1000 THEN VSkip ELSE
+    LET q == Tup(QSeq(ws)) T == QF(ev.tn, ev.td) kn == KTanN(ev.tn, ev.td) kd == KTanD(ev.tn, ev.td) IN
     IF ~(AllInRange(q) /\ Pos(q[1])) THEN VSkip
     ELSE CASE ev.op = "perspective" ->
                 IF ~(Pos(q[2]) /\ Pos(q[3]) /\ QLt(q[3], q[4])) THEN VSkip
                 ELSE LET E(lh, zo) == Perspective(T, q[2], q[3], q[4], lh, zo)
-                     IN VBool(CfgOK(ev) /\ FourOK(ev, ev.op, E, kq) /\ DispatchOK(ev, {"U", "ZO", "NO", "LH", "RH"}))
+                     IN VBool(CfgOK(ev) /\ DispatchOK(ev, AllKinds) /\ FourOK(ev, ev.op, E, kn, kd))
            [] ev.op = "perspectiveFov" ->
                 IF ~(Pos(q[2]) /\ Pos(q[3]) /\ Pos(q[4]) /\ QLt(q[4], q[5])) THEN VSkip
                 ELSE LET E(lh, zo) == PerspectiveFov(T, q[2], q[3], q[4], q[5], lh, zo)
-                     IN VBool(CfgOK(ev) /\ FourOK(ev, ev.op, E, kq) /\ DispatchOK(ev, {"U", "ZO", "NO", "LH", "RH"}))
+                     IN VBool(CfgOK(ev) /\ DispatchOK(ev, AllKinds) /\ FourOK(ev, ev.op, E, kn, kd))
            [] ev.op = "infinitePerspective" ->
                 IF ~(Pos(q[2]) /\ Pos(q[3])) THEN VSkip
                 ELSE LET E(lh, zo) == InfinitePerspective(T, q[2], q[3], lh, zo)
                      \* infinitePerspectiveLH / RH are judged whenever the build could call them
-                     IN VBool(CfgOK(ev) /\ FourOK(ev, ev.op, E, kq) /\ DispatchOK(ev, {"U"} \cup (KindsPresent(ev) \cap {"LH", "RH"}))
-                              /\ KindsPresent(ev) \cap {"ZO", "NO"} = {})
+                     IN VBool(CfgOK(ev) /\ DispatchOK(ev, {"U"} \cup (KindsPresent(ev) \cap {"LH", "RH"}))
+                              /\ KindsPresent(ev) \cap {"ZO", "NO"} = {} /\ FourOK(ev, ev.op, E, kn, kd))
            [] ev.op = "tweaked" ->
                 IF ~(Pos(q[2]) /\ Pos(q[3])) THEN VSkip
-                ELSE VBool(CfgOK(ev) /\ MatOK(Fmt(ev), ev.op, ev.r, TweakedInfinitePerspective(T, q[2], q[3], EpsQ(ev)), kq))
+                ELSE VBool(CfgOK(ev) /\ OneOK(ev, ev.op, ev.r, TweakedInfinitePerspective(T, q[2], q[3], EpsQ(ev)), kn, kd))
            [] ev.op = "tweakedEp" ->
                 IF ~(Pos(q[2]) /\ Pos(q[3])) THEN VSkip
-                ELSE VBool(CfgOK(ev) /\ MatOK(Fmt(ev), ev.op, ev.r, TweakedInfinitePerspective(T, q[2], q[3], q[4]), kq))
+                ELSE VBool(CfgOK(ev) /\ OneOK(ev, ev.op, ev.r, TweakedInfinitePerspective(T, q[2], q[3], q[4]), kn, kd))
 
 \* ---------------------------------------------------------------- project / unProject / pickMatrix
 QFromZZ(z) == QMk(z, <<1>>)
 VpQ(ev, i) == IF ev.u = "i32" THEN Tup([j \in 1..4 |-> QFromZZ(WToZ(32, TRUE, WFromLimbs(ev.a[i][j])))]) ELSE Tup(QSeq(ev.a[i]))
 VpFin(ev, i) == ev.u = "i32" \/ AllFin(ev.a[i])
 MatQ(ws) == Mat(4, 4, Tup(QSeq(ws)))
-KProj == 8           \* units of eps; the a-priori bound below is 3.5 (two 4-term products 3u + 3u, one division u)
-KUnproj == 16        \* product (3u), cofactor inverse (2x2 / 3x3 / 4x4 expansions, about 10u), matrix * vector (3u), division
+KProj == 4           \* units of eps; the a-priori bound below is 3.5 (two 4-term products 3u + 3u, one division u)
+KUnproj == 8        \* product (3u), cofactor inverse (2x2 / 3x3 / 4x4 expansions, about 10u), matrix * vector (3u), division
+
+\* ---- dyadic helpers: the exact clip / pre-image coordinates are dyadic (all logged inputs are), and the error
+\* bounds are evaluated on 16-bit upper approximations (UpD) of the absolute values, without any division
+DUp(q) == UpD(DOfQ(q))
+DVecUp(v) == Tup([i \in 1..Len(v) |-> DUp(v[i])])
+DDotSeq(a, b) == DSum(Tup([k \in 1..Len(a) |-> DMul(a[k], b[k])]))
+\* |A| * v for a 4x4 of rationals A (approximated from above) and a vector of non-negative dyadics v
+DMatVecUp(A, v) == LET U == Tup([k \in 1..16 |-> DUp(A.e[k])])
+                   IN Tup([r \in 1..4 |-> UpD(DSum(<< DMul(U[r], v[1]), DMul(U[4 + r], v[2]), DMul(U[8 + r], v[3]), DMul(U[12 + r], v[4]) >>))])
+DEpsK(f, k) == DMk(FALSE, NFromNat(k), -f.mb)                                  \* k * eps
+AllDyadic(s) == \A i \in 1..Len(s) : IsDyadicQ(s[i])
+\* | obs - num/den | <= tolNum / tolDen   (den # 0, tolDen > 0):   | obs*den - num | * tolDen <= tolNum * |den|
+NearHom(obs, num, den, tolNum, tolDen) ==
+    DLe(DMul(LowD(DSub(DMul(obs, den), num)), LowD(tolDen)), DMul(tolNum, UpD(den)))
 
 \* |.|-weighted first-order bound for  ndc = (P (M o)) / w :  each of the two matrix-vector products is a sum of 4
 \* products (error <= 3u * sum of |terms|), so  err(clip_i) <= 6u A_i  with  A = |P| |M| |o|,  and
-\* err(ndc_i) <= 6u (A_i + |ndc_i| A_4) / |w| + u |ndc_i|.   Then  win = (ndc/2 + 1/2) * size + origin.
+\* err(ndc_i) <= 6u (A_i + |ndc_i| A_4) / |w| + u |ndc_i|  <=  KProj eps (A_i |w| + |c_i| A_4) / w^2  =: TN_i / w^2.
+\* Then  win = (ndc/2 + 1/2) * size + origin  (3 more roundings of terms bounded by (|ndc|/2 + 1/2) |size| + |origin|):
+\*   tol_xy = TN |size| / (2 w^2) + 4 eps ((|c| |w| + w^2) |size| / 2 + |origin| w^2) / w^2,
+\*   tol_z  = TN / w^2 (ZO),   TN / (2 w^2) + 2 eps (|c_z| |w| + w^2) / (2 w^2) (NO).
 ProjectVerdict(ev) ==
     IF ~(AllFin(ev.a[1]) /\ AllFin(ev.a[2]) /\ AllFin(ev.a[3]) /\ VpFin(ev, 4)) THEN VSkip ELSE
-    LET obj == Tup(QSeq(ev.a[1])) M == MatQ(ev.a[2]) P == MatQ(ev.a[3]) vp == VpQ(ev, 4)
-        c == ClipOf(obj, M, P) w == c[4]
-        A == MVecN(MAbs(P), MVecN(MAbs(M), VAbs(Hom(obj))))
-        eps == EpsQ(ev)
-    IN IF ~(AllInRange(obj) /\ AllInRange(M.e) /\ AllInRange(P.e) /\ AllInRange(vp)) THEN VSkip
-       ELSE IF QIsZero(w) \/ QLt(QMul(QAbs(w), Pow2Q(10)), A[4]) THEN VSkip          \* on or next to the plane w = 0
-       ELSE LET nd == Tup([i \in 1..3 |-> QDiv(c[i], w)])
-                tn == Tup([i \in 1..3 |-> QMul(QMulInt(eps, KProj), QDiv(QAdd(A[i], QMul(QAbs(nd[i]), A[4])), QAbs(w)))])
-                hx(i) == QAdd(QMul(QAbs(nd[i]), QHalf), QHalf)
-                tolXY(i, size, org) == QAdd(QMul(tn[i], QMul(QAbs(size), QHalf)), QMul(QMulInt(eps, 4), QAdd(QMul(hx(i), QAbs(size)), QAbs(org))))
+    LET f == Fmt(ev) obj == Tup(QSeq(ev.a[1])) M == MatQ(ev.a[2]) P == MatQ(ev.a[3]) vp == VpQ(ev, 4) IN
+    IF ~(AllInRange(obj) /\ AllInRange(M.e) /\ AllInRange(P.e) /\ AllInRange(vp)) THEN VSkip ELSE
+    LET c == ClipOf(obj, M, P)
+        cu == DVecUp(c) wu == cu[4] w2u == DMul(wu, wu)
+        A == DMatVecUp(P, DMatVecUp(M, DVecUp(Hom(obj))))
+    IN IF QIsZero(c[4]) \/ DLt(DMul2k(LowD(DOfQ(c[4])), 10), A[4]) THEN VSkip          \* on or next to the plane w = 0
+       ELSE LET TN(i) == DMul(DEpsK(f, KProj), DAdd(DMul(A[i], wu), DMul(cu[i], A[4])))
+                su(i) == DUp(vp[2 + i]) ou(i) == DUp(vp[i])
+                \* tolerances as fractions over 2 w^2
+                TolXY(i) == DAdd(DMul(TN(i), su(i)),
+                                 DMul(DEpsK(f, 4), DAdd(DMul(DAdd(DMul(cu[i], wu), w2u), su(i)), DMul2k(DMul(ou(i), w2u), 1))))
+                TolZ(zo) == IF zo THEN DMul2k(TN(3), 1) ELSE DAdd(TN(3), DMul(DEpsK(f, 2), DAdd(DMul(cu[3], wu), w2u)))
+                den2 == DMul2k(w2u, 1)
                 Good(r, zo) ==
-                    LET e == ProjectQ(obj, M, P, vp, zo) IN
+                    LET h == ProjectHom(obj, M, P, vp, zo) IN
                     /\ AllFin(r)
-                    /\ QNear(QW(r[1]), e[1], tolXY(1, vp[3], vp[1]))
-                    /\ QNear(QW(r[2]), e[2], tolXY(2, vp[4], vp[2]))
-                    /\ QNear(QW(r[3]), e[3], IF zo THEN tn[3] ELSE QAdd(QMul(tn[3], QHalf), QMul(QMulInt(eps, 2), hx(3))))
-            IN VBool(CfgOK(ev) /\ Good(ev.ZO, TRUE) /\ Good(ev.NO, FALSE) /\ ev.U = (IF CfgZO(ev.cfg) THEN ev.ZO ELSE ev.NO))
+                    /\ NearHom(ValW(f, r[1]), DOfQ(h[1]), DOfQ(h[4]), TolXY(1), den2)
+                    /\ NearHom(ValW(f, r[2]), DOfQ(h[2]), DOfQ(h[4]), TolXY(2), den2)
+                    /\ NearHom(ValW(f, r[3]), DOfQ(h[3]), DOfQ(h[5]), TolZ(zo), den2)
+            IN VBool(CfgOK(ev) /\ ev.U = (IF CfgZO(ev.cfg) THEN ev.ZO ELSE ev.NO) /\ Good(ev.ZO, TRUE) /\ Good(ev.NO, FALSE))
 
 \* unProject computes  Inv = inverse(fl(P*M)),  tmp = ndc(win),  o = Inv * tmp,  obj = o / o.w .
 \* With  A = P*M,  AA = |P| |M|  (so |fl(P*M) - A| <= 3u AA)  and  B = |Inv| AA |Inv|  (>= |Inv|), a perturbation dA
-\* of A moves Inv by Inv dA Inv, hence  err(o) <= K u B |tmp| + |Inv| err(tmp);  everything is kept multiplied by
-\* det(A) (adj = det * Inv) so that only one division is needed.
+\* of A moves Inv by Inv dA Inv, hence  err(o) <= KUnproj eps B |tmp| + |Inv| err(tmp),  with
+\* err(tmp_x) <= eps (2 |win_x - org_x| / |size_x| + |tmp_x| + 1)  (difference, quotient, 2x - 1),  err(tmp_z) <= eps |tmp_z|.
+\* Everything is evaluated multiplied by  sigma = size_x size_y  (tmpS = sigma tmp)  and by  det(A)  (adj = det Inv):
+\*   o' = adj tmpS,   E''_i = |det| * |sigma det| err(o_i) = eps (KUnproj (|adj| AA |adj| |tmpS|)_i + |det| (|adj| dtS)_i),
+\* and  | r_i - o'_i / o'_4 | <= (9/8) (E'_i + |e_i| E'_4) / |o'_4| + eps |e_i|  becomes, multiplied by |o'_4|^2 |det|,
+\*   | r_i o'_4 - o'_i | |o'_4| |det|  <=  (9/8) (E''_i |o'_4| + |o'_i| E''_4) + eps |o'_i| |o'_4| |det|.
 UnProjectVerdict(ev) ==
     IF ~(AllFin(ev.a[1]) /\ AllFin(ev.a[2]) /\ AllFin(ev.a[3]) /\ VpFin(ev, 4)) THEN VSkip ELSE
-    LET win == Tup(QSeq(ev.a[1])) M == MatQ(ev.a[2]) P == MatQ(ev.a[3]) vp == VpQ(ev, 4)
-        eps == EpsQ(ev)
-    IN IF ~(AllInRange(win) /\ AllInRange(M.e) /\ AllInRange(P.e) /\ AllInRange(vp)) \/ QIsZero(vp[3]) \/ QIsZero(vp[4]) THEN VSkip ELSE
-       LET A == MMulN(P, M) det == Det4N(A) IN
-       IF QIsZero(det) THEN VSkip ELSE
-       LET adj == Adj4N(A) aadj == MAbs(adj) AA == MMulN(MAbs(P), MAbs(M))
-           Judge(r, zo) ==                                   \* "ok" | "skip" | "bad"
-               LET tmp == NdcOfWin(win, vp, zo)
-                   o == MVecN(adj, tmp)
-                   dtu == << QAdd(QAdd(QMul(QTwo, QDiv(QAbs(QSub(win[1], vp[1])), QAbs(vp[3]))), QAbs(tmp[1])), QOne),
-                             QAdd(QAdd(QMul(QTwo, QDiv(QAbs(QSub(win[2], vp[2])), QAbs(vp[4]))), QAbs(tmp[2])), QOne),
-                             QAbs(tmp[3]), QZero >>
-                   Bt == MVecN(aadj, MVecN(AA, MVecN(aadj, VAbs(tmp))))          \* det^2 * B |tmp|
-                   Dt == MVecN(aadj, dtu)                                        \* |det| * |Inv| dtu
-                   E == Tup([i \in 1..4 |-> QMul(eps, QAdd(QDiv(QMulInt(Bt[i], KUnproj), QAbs(det)), Dt[i]))])   \* |det| * err(o_i)
-               IN IF QIsZero(o[4]) \/ QLt(QAbs(o[4]), QMulInt(E[4], 8)) THEN "skip"                 \* pre-image at / next to infinity
-                  ELSE LET e == DeHom(o) IN
-                       IF AllFin(r) /\ \A i \in 1..3 :
-                              QNear(QW(r[i]), e[i], QAdd(QMul(QF(9, 8), QDiv(QAdd(E[i], QMul(QAbs(e[i]), E[4])), QAbs(o[4]))), QMul(eps, QAbs(e[i]))))
-                       THEN "ok" ELSE "bad"
-           jz == Judge(ev.ZO, TRUE) jn == Judge(ev.NO, FALSE)
-           same == ev.U = (IF CfgZO(ev.cfg) THEN ev.ZO ELSE ev.NO)
-       IN IF jz = "bad" \/ jn = "bad" \/ ~CfgOK(ev) THEN VBad
-          ELSE IF jz = "skip" /\ jn = "skip" THEN VSkip
-          ELSE VBool(same)
+    LET f == Fmt(ev) win == Tup(QSeq(ev.a[1])) M == MatQ(ev.a[2]) P == MatQ(ev.a[3]) vp == VpQ(ev, 4) IN
+    IF ~(AllInRange(win) /\ AllInRange(M.e) /\ AllInRange(P.e) /\ AllInRange(vp)) \/ QIsZero(vp[3]) \/ QIsZero(vp[4]) THEN VSkip ELSE
+    LET A == MMulN(P, M) det == Det4N(A) IN
+    IF QIsZero(det) THEN VSkip ELSE
+    LET adj == Adj4N(A)
+        detU == DUp(det) detL == LowD(DOfQ(det))
+        AAu == Tup([r \in 1..4 |-> Tup([cc \in 1..4 |-> UpD(DSum(Tup([k \in 1..4 |-> DMul(DUp(MAt(P, k, r)), DUp(MAt(M, cc, k)))])))])])   \* AAu[row][col]
+        AAv(v) == Tup([r \in 1..4 |-> UpD(DDotSeq(AAu[r], v))])
+        Judge(r, zo) ==                                   \* "ok" | "skip" | "bad"
+            LET tmp == NdcOfWinS(win, vp, zo)
+                o == MVecN(adj, tmp)
+                od == Tup([i \in 1..4 |-> DOfQ(o[i])]) ou == Tup([i \in 1..4 |-> UpD(od[i])])
+                sg == DUp(QMulN(vp[3], vp[4]))
+                dtS == << DAdd(DAdd(DMul2k(DMul(DUp(QSubN(win[1], vp[1])), DUp(vp[4])), 1), DUp(tmp[1])), sg),
+                          DAdd(DAdd(DMul2k(DMul(DUp(QSubN(win[2], vp[2])), DUp(vp[3])), 1), DUp(tmp[2])), sg),
+                          DUp(tmp[3]), DZero >>
+                Bt == DMatVecUp(adj, AAv(DMatVecUp(adj, DVecUp(tmp))))
+                Dt == DMatVecUp(adj, dtS)
+                E == Tup([i \in 1..4 |-> DMul(DEpsK(f, 1), DAdd(DMulInt(Bt[i], KUnproj), DMul(detU, Dt[i])))])       \* E''
+            IN IF QIsZero(o[4]) \/ DLt(DMul(LowD(od[4]), detL), DMulInt(E[4], 8)) THEN "skip"        \* pre-image at / next to infinity
+               ELSE IF AllFin(r) /\ \A i \in 1..3 :
+                          DLe(DMul(DMul(LowD(DSub(DMul(ValW(f, r[i]), od[4]), od[i])), LowD(od[4])), detL),
+                              DAdd(DMul2k(DMulInt(DAdd(DMul(E[i], ou[4]), DMul(ou[i], E[4])), 9), -3),
+                                   DMul(DEpsK(f, 1), DMul(DMul(ou[i], ou[4]), detU))))
+                    THEN "ok" ELSE "bad"
+        jz == Judge(ev.ZO, TRUE) jn == Judge(ev.NO, FALSE)
+        same == ev.U = (IF CfgZO(ev.cfg) THEN ev.ZO ELSE ev.NO)
+    IN IF jz = "bad" \/ jn = "bad" \/ ~CfgOK(ev) THEN VBad
+       ELSE IF jz = "skip" /\ jn = "skip" THEN VSkip
+       ELSE VBool(same)
 
 \* pickMatrix: scale entries are one division; the translation is (size - 2 (c - org)) / delta: two once-rounded
 \* differences (the doubling is exact) and a division, absolute error <= 2u (|size| + 2 |c - org|) / delta
@@ -170,7 +215,7 @@ PickVerdict(ev) ==
         tolT(i) == QMul(QMulInt(eps, 4), QDiv(QAdd(QAbs(vp[2 + i]), QMul(QTwo, QAbs(QSub(c[i], vp[i])))), d[i]))
         r == ev.r
     IN VBool(/\ CfgOK(ev) /\ Len(r) = 16 /\ AllFin(r)
-             /\ NearW(f, r[1], E.e[1], QTwo) /\ NearW(f, r[6], E.e[6], QTwo)
+             /\ QNear(QW(r[1]), E.e[1], QMul(QMulInt(eps, 2), QAbs(E.e[1]))) /\ QNear(QW(r[6]), E.e[6], QMul(QMulInt(eps, 2), QAbs(E.e[6])))
              /\ QNear(QW(r[13]), E.e[13], tolT(1)) /\ QNear(QW(r[14]), E.e[14], tolT(2))
              /\ \A i \in (1..16) \ {1, 6, 13, 14} : QEq(QW(r[i]), E.e[i]))
 
